@@ -634,6 +634,16 @@ func (s *c07Scen) step(family string, now time.Time, h *tibctmtypes.Header) bool
 		if pre.Other != 0 || post.Other != 0 {
 			e.rep.Fail("C07:unknown-store-key", "client store holds a key outside the modelled families", desc)
 		}
+		// message-level validation (MsgUpdateClient.ValidateBasic -> Header.ValidateBasic runs before the
+		// handler; the executors above call the client / keeper directly): it must not refuse a header
+		// the light-client rule accepts, or "accepted if and only if" fails for real transactions.
+		// (What it lets through is re-checked by checkValidity, so a laxer ValidateBasic is harmless.)
+		if hv, isHdr := interface{}(h).(interface{ ValidateBasic() error }); isHdr {
+			vbErr := c07Safe(func() error { return hv.ValidateBasic() })
+			if ok && vbErr != nil {
+				e.rep.Fail("C07:message-validation-refuses-valid-header", "Header.ValidateBasic refuses a header that the client accepts: through MsgUpdateClient this valid header is rejected: "+vbErr.Error(), desc)
+			}
+		}
 		if ok && len(verdict.Sound) > 0 {
 			e.rep.Fail("C07:accepted-against-rule", "header accepted although the light-client rule does not allow it: "+strings.Join(verdict.Sound, "; "), desc)
 		}
